@@ -1,4 +1,6 @@
 import Blf.Gen.All
+import Blf.Codec.Safe
+import Blf.Codec.Pos
 import Blf.Codec.Determinacy
 import Blf.Spec.ObjectTypes
 import Blf.UFile
@@ -103,6 +105,9 @@ def handle (cfg : Cfg) (line : String) : String :=
       let b (x : Bool) := if x then "1" else "0"
       c.name ++ "=" ++ b c.inputsInit ++ b c.arraysInit ++ b c.allInit ++
         b (Spec.lookupCode Gen.factoryTable c.ctorType == some c.name))
+  | ["safecheck"] =>
+    "safecheck " ++ " ".intercalate ((Gen.allCodecs ++ [Gen.ObjectHeaderBase]).map fun c =>
+      c.name ++ "=" ++ (if readSafe c then "1" else "0") ++ (if c.readProg.syncFirst then "1" else "0"))
   | ["regcheck"] =>
     "regcheck " ++ " ".intercalate (Gen.regularLayouts.map fun p =>
       p.1.name ++ "=" ++ (if regularCheck p.1 p.2 then "1" else "0"))
